@@ -6,7 +6,14 @@
    (FsSpec) as the history unfolds:
      KRootOp           open/spit/unlink/mkdir/rmdir/rename naming "/" itself
      KRenameSelf       rename of a regular file onto its own path
-     KRenameFile       rename whose source is a regular file
+     KRenameFile       rename whose source is a regular file.  This is what the theorems EXCLUDE; the
+                       known findings RenameFile / RenameCrossDir (known_findings.txt, decided by
+                       gen/fam_fs.py history_features) are narrower: renames of a file with unsynced data,
+                       onto a file with unsynced data or a recently removed name, renamed again or written
+                       or whose new directory is removed before the rename is flushed; and the three
+                       cross-directory patterns.  Renames of data-synced files left alone until a
+                       directory sync flushes them are correct on the crate and asserted by the oracle
+                       only (the theorems are _partial for them)
      KRenameDir        rename whose source is a directory
      KStaleHandle      use of a handle whose opening path no longer names its inode
      KRecreate         creation of a file at a path where a file was unlinked or
